@@ -769,8 +769,18 @@ func c20ConfiguredValuesKept(p *Prog, r *Report) {
 				return
 			}
 			if al, ok := fa.X.(*ssa.Alloc); ok && al.Parent() == fn {
-				// a literal under construction: fine when it copies a configuration value
-				return
+				// a literal under construction: fine when it copies a configuration value; a local that
+				// received a whole struct (the spilled `config Config` parameter, a copy) is an existing
+				// configuration, not a literal
+				wholeStore := false
+				for _, ref := range *al.Referrers() {
+					if ws, ok := ref.(*ssa.Store); ok && ws.Addr == ssa.Value(al) {
+						wholeStore = true
+					}
+				}
+				if !wholeStore {
+					return
+				}
 			}
 			bad = append(bad, fmt.Sprintf("%s: %s assigns %s.%s after the configuration was parsed (%s)", p.Pos(st.Pos()), fn.Name(), owner.Obj().Name(), f.Name(), valDesc(st.Val)))
 		})
